@@ -281,6 +281,9 @@ func (s *fsm13) prepare(ctx context.Context, conn Conn) (nextState State, err er
 		return StateErrored, err
 	}
 
+	pkts = verifRewriteFlight(VerifFlightInfo{
+		IsClient: s.state.IsClient, Is13: true, Flight: s.currentFlight.String(), State: s.state, Cache: s.cache,
+	}, pkts)
 	s.flights = pkts
 	s.prepareFlightACKTracking(s.flights, s.retransmit)
 	if err := s.commitPreparedFlight(conn, s.currentFlight, s.flights); err != nil {
